@@ -70,7 +70,7 @@ def shards(tier):
                     out.append({"part": "one", "kind": kind, "renamed": renamed, "asize": 3, "n": 4, "lfirst": lf, "only_len": 4})
     for k1, k2 in (PAIRS_Q if tier == "quick" else PAIRS_T):
         for mode in ("same", "mixed"):
-            for lf in range(3):
+            for lf in range(len(V.alphabet(k1, "key"))):
                 out.append({"part": "two", "kinds": [k1, k2], "mode": mode, "n": 2, "lfirst": lf})
             out.append({"part": "two", "kinds": [k1, k2], "mode": mode, "n": 1, "lfirst": None})
     return out
